@@ -422,7 +422,31 @@ func damage(t *rapid.T, b []byte, spans []wirex.Span) ([]byte, string) {
 	if len(b) == 0 {
 		return b, "valid"
 	}
-	switch rapid.IntRange(0, 9).Draw(t, "damage") {
+	switch rapid.IntRange(0, 11).Draw(t, "damage") {
+	case 3, 4:
+		// corrupt the inside of a nested message while the outer framing stays valid, so that the
+		// top-level decode succeeds and a nested decode fails half-way
+		var inner []wirex.Span
+		for _, sp := range spans {
+			if sp.Depth >= 1 {
+				inner = append(inner, sp)
+			}
+		}
+		if len(inner) == 0 {
+			return b, "valid"
+		}
+		sp := inner[rapid.IntRange(0, len(inner)-1).Draw(t, "inner_which")]
+		c := append([]byte(nil), b...)
+		kind := rapid.IntRange(0, 2).Draw(t, "inner_kind")
+		switch kind {
+		case 0:
+			c[sp.KeyStart] = c[sp.KeyStart]&^7 | 7 // unsupported wire type
+		case 1:
+			c[sp.KeyStart] = 0x80 // key varint runs into the payload
+		default:
+			c[sp.KeyStart] = 0 // field number 0
+		}
+		return c, fmt.Sprintf("nested-corrupt@%d(depth %d, kind %d)", sp.KeyStart, sp.Depth, kind)
 	case 0:
 		k := rapid.IntRange(0, len(b)-1).Draw(t, "trunc_at")
 		return wirex.Truncate(b, k), fmt.Sprintf("truncated@%d", k)
@@ -481,7 +505,7 @@ func runC14(t *rapid.T, w *rep.Worker) {
 		}
 		return
 	}
-	fc0 := lazysim.FilterCalls
+	fc0 := lazysim.FilterCalls.Load()
 	actions := map[string]func(*rapid.T){
 		"":          s.check,
 		"decode":    s.opDecode,
@@ -511,7 +535,7 @@ func runC14(t *rapid.T, w *rep.Worker) {
 	w.Probes["pool_hit"] += int64(st.Hits)
 	w.Probes["pool_double_put"] += int64(st.DoublePuts)
 	w.Probes["pool_foreign_put"] += int64(st.RecycledAcrossPools)
-	w.Probes["filter_calls"] += int64(lazysim.FilterCalls - fc0)
+	w.Probes["filter_calls"] += lazysim.FilterCalls.Load() - fc0
 	w.Probes["judged_observations"] += int64(s.judged)
 	if st.Hits > 0 && s.judged > 0 {
 		w.EndNontrivial()
